@@ -151,7 +151,7 @@ Lemma settle_one f s c dn :
   Forall (fun m => exists vn, about dn vn m) (cl_in_ctl c) -> Forall (fun m => exists vn, about dn vn m) (cl_in_blob c) ->
   settle (S f) s =
   {| sy_r := sy_r s; sy_devs := sy_devs s;
-     sy_cls := [with_mirror (with_inboxes c [] []) (feed (feed (cl_mirror c) (cl_in_ctl c)) (cl_in_blob c))];
+     sy_cls := [with_mirror (with_inboxes c [] []) (feed (feed (cl_mirror c) (cl_in_ctl c)) (filter taken_from_blob_connection (cl_in_blob c)))];
      sy_oof := sy_oof s |} \/
   (cl_in_ctl c = [] /\ cl_in_blob c = [] /\ settle (S f) s = s).
 Proof.
@@ -159,7 +159,7 @@ Proof.
   destruct (cl_in_ctl c) as [|m1 r1] eqn:E1; [destruct (cl_in_blob c) as [|m2 r2] eqn:E2; [right; repeat split; reflexivity|]|]; left.
   - cbn [andb fold_left]. unfold drain_client. rewrite Net, E1, E2.
     destruct (consume_known [] (with_inboxes c [] []) dn Hk ltac:(constructor)) as [A1 K1]. rewrite A1. cbn [feed fold_left cl_mirror with_inboxes with_mirror] in *.
-    destruct (consume_known (m2 :: r2) (with_mirror (with_inboxes c [] []) (cl_mirror c)) dn Hk Hb) as [A2 K2]. rewrite A2.
+    destruct (consume_known (filter taken_from_blob_connection (m2 :: r2)) (with_mirror (with_inboxes c [] []) (cl_mirror c)) dn Hk (forall_filter _ _ _ Hb)) as [A2 K2]. rewrite A2.
     cbn [app fold_left]. cbn [cl_mirror with_mirror with_inboxes]. 
     set (c2 := with_mirror _ _).
     assert (Q : settle f {| sy_r := sy_r s; sy_devs := sy_devs s; sy_cls := [c2]; sy_oof := sy_oof s |} = {| sy_r := sy_r s; sy_devs := sy_devs s; sy_cls := [c2]; sy_oof := sy_oof s |}).
@@ -167,7 +167,7 @@ Proof.
     rewrite Q. reflexivity.
   - cbn [andb fold_left]. unfold drain_client. rewrite Net, E1.
     destruct (consume_known (m1 :: r1) (with_inboxes c [] []) dn Hk Hc) as [A1 K1]. rewrite A1. cbn [cl_mirror with_inboxes with_mirror] in *.
-    destruct (consume_known (cl_in_blob c) (with_mirror (with_inboxes c [] []) (feed (cl_mirror c) (m1 :: r1))) dn K1 Hb) as [A2 K2]. rewrite A2.
+    destruct (consume_known (filter taken_from_blob_connection (cl_in_blob c)) (with_mirror (with_inboxes c [] []) (feed (cl_mirror c) (m1 :: r1))) dn K1 (forall_filter _ _ _ Hb)) as [A2 K2]. rewrite A2.
     cbn [app fold_left]. cbn [cl_mirror with_mirror with_inboxes].
     set (c2 := with_mirror _ _).
     assert (Q : settle f {| sy_r := sy_r s; sy_devs := sy_devs s; sy_cls := [c2]; sy_oof := sy_oof s |} = {| sy_r := sy_r s; sy_devs := sy_devs s; sy_cls := [c2]; sy_oof := sy_oof s |}).
@@ -182,6 +182,13 @@ Proof.
   induction l as [|p l IH]; [discriminate|]. cbn [map find]. destruct (N.eqb (fst p) e) eqn:E.
   - intros _. cbn [fst]. rewrite N.eqb_refl. reflexivity.
   - rewrite E. exact IH.
+Qed.
+
+Lemma filter_taken_blob ms :
+  filter taken_from_blob_connection (map wire (filter is_blob_msg ms)) = map wire (filter is_blob_msg ms).
+Proof.
+  induction ms as [|m ms IH]; [reflexivity|]. cbn [filter]. destruct (is_blob_msg m) eqn:E; [|exact IH].
+  cbn [map filter]. assert (taken_from_blob_connection (wire m) = true) as -> by exact E. now rewrite IH.
 Qed.
 
 (* ---------- one driver-side operation, end to end in the system model ---------- *)
@@ -219,7 +226,7 @@ Proof.
               ltac:(rewrite Ic; apply forall_map_wire, forall_filter, Hab) ltac:(rewrite Ib; apply forall_map_wire, forall_filter, Hab)) as [R|(E1 & E2 & R)];
     change (S (pred FUEL)) with FUEL in R; rewrite R.
   - eexists. split; [reflexivity|]. cbn [cl_mirror with_mirror cl_in_ctl cl_in_blob with_inboxes sy_r].
-    rewrite Im, Ic, Ib. unfold delivered_stream. rewrite feed_app.
+    rewrite Im, Ic, Ib. rewrite filter_taken_blob. unfold delivered_stream. rewrite feed_app.
     split; [reflexivity|]. split; [reflexivity|]. split; [reflexivity|]. split; [|split; [exact Sr|]].
     + unfold find_dev. cbn [sy_devs]. rewrite Sd. exact Fd0.
     + cbn [cl_net cl_ctl cl_blob with_mirror with_inboxes]. auto.
